@@ -28,7 +28,7 @@ type World struct {
 	specFuncs   map[string]*SpecFunc
 	specFuncPkg map[string]*types.Package
 	lemmas      []*Lemma
-	axioms      []Clause
+	axioms      []axiomIn
 	usedLib     map[string]bool
 	refuted     map[string]bool
 	lemmaPkg    *types.Package
@@ -192,6 +192,8 @@ func loadWorld(prop string, extraPkgs []string) (*World, error) {
 				w.extern[name] = fs
 			case strings.HasPrefix(name, "iface "):
 				fs.Name = strings.TrimSpace(strings.TrimPrefix(name, "iface "))
+				fs.Trusted = true
+				fs.Notes = append(fs.Notes, "contract on an interface method: assumed for every implementation")
 				w.ifaceSpecs[pp+"::"+fs.Name] = fs
 			default:
 				w.specs[pp+"::"+normName(name)] = fs
@@ -210,7 +212,9 @@ func loadWorld(prop string, extraPkgs []string) (*World, error) {
 		for _, gg := range sf.Globals {
 			w.globalGhosts[gg.Name] = gg.Type
 		}
-		w.axioms = append(w.axioms, sf.Axioms...)
+		for _, ax := range sf.Axioms {
+			w.axioms = append(w.axioms, axiomIn{ax, pp})
+		}
 	}
 	return w, nil
 }
@@ -330,4 +334,9 @@ func (w *World) findFunction(fs *FuncSpec) *ssa.Function {
 		}
 	}
 	return found
+}
+
+type axiomIn struct {
+	c   Clause
+	pkg string
 }
